@@ -59,6 +59,16 @@ CHECKS = {
         "Python-level audit events only (fortls has no C extension); debug_log and update check off; payload grammar is finite though parametrised.",
         "DESIGN.md §3 C17",
     ),
+    "C01": (
+        "exploration",
+        "Hypothesis-generated message histories with structural param mutation and harness-side fault injection, checked against a reference session model through an independent frame reader",
+        "Sequences of up to ~130 requests/notifications (all handlers, malformed params, unknown methods, exit anywhere, long bursts, "
+        "repeated ids) run through the real LangServer.run() loop (and python -m fortls for a share); the emitted responses must equal the "
+        "model's list of (id, class) in order, everything else must be a notification, all frames JSON. One internal function may be "
+        "made to raise at its k-th call so the dispatcher's error paths are exercised even when the parser has no live defect.",
+        "Only well-formed JSON-RPC requests/notifications; the reference model is checks/c01.py:expected_responses.",
+        "DESIGN.md §3 C01",
+    ),
 }
 
 NOT_YET = "check not built yet in this session (work in progress; see DESIGN.md §3 for the planned generator and oracle)"
